@@ -291,6 +291,42 @@ REFACTORS = [
    """	defer closer.Close()
 	return bytes.Clone(data), nil
 """)]),
+ ("r24-relay-check-netip", ["C11", "C08"], [("portalwire/portal_protocol.go",
+   "	if err = netutil.CheckRelayIP(sender.IP(), n.IP()); err != nil {",
+   "	if err = netutil.CheckRelayAddr(sender.IPAddr(), n.IPAddr()); err != nil {")]),
+ ("r25-reply-scan-continue-form", ["C10", "C01"], [("portalwire/lookup.go",
+   """				if n != nil && !it.seen[n.ID()] {
+					it.seen[n.ID()] = true
+					it.result.push(n, bucketSize)
+					it.replyBuffer = append(it.replyBuffer, n)
+				}
+""",
+   """				if n == nil || it.seen[n.ID()] {
+					continue
+				}
+				it.seen[n.ID()] = true
+				it.result.push(n, bucketSize)
+				it.replyBuffer = append(it.replyBuffer, n)
+""")]),
+ ("r26-permit-getter-direct-test", ["C16"], [("portalwire/utp_transport.go",
+   """	if ok := u.inboundLimit.TryAcquire(1); !ok {
+		return &NoPermit{}, false
+	}
+""",
+   """	if !u.inboundLimit.TryAcquire(1) {
+		return &NoPermit{}, false
+	}
+""")]),
+ ("r27-shutdown-drain-for-range", ["C10", "C01"], [("portalwire/lookup.go",
+   """	for it.queries > 0 {
+		<-it.replyCh
+		it.queries--
+	}
+""",
+   """	for ; it.queries > 0; it.queries-- {
+		<-it.replyCh
+	}
+""")]),
 ]
 
 MUTANTS = [
@@ -350,6 +386,125 @@ MUTANTS = [
  ("m-C10-no-asked-mark", "C10", [("portalwire/lookup.go", "			it.asked[n.ID()] = true\n			it.queries++", "			it.queries++")]),
  ("m-C10-no-seen-mark", "C10", [("portalwire/lookup.go", "					it.seen[n.ID()] = true\n					it.result.push(n, bucketSize)", "					it.result.push(n, bucketSize)")]),
  ("m-C10-early-done", "C10", [("portalwire/portal_protocol.go", "		defer wg.Done()\n		for res := range resChan {\n			if res.Flag != ContentEnrsSelector {", "		wg.Done()\n		for res := range resChan {\n			if res.Flag != ContentEnrsSelector {")]),
+ ("m-C11-relay-args-swapped", "C11", [("portalwire/portal_protocol.go",
+   "	if err = netutil.CheckRelayIP(sender.IP(), n.IP()); err != nil {",
+   "	if err = netutil.CheckRelayIP(n.IP(), sender.IP()); err != nil {")]),
+ ("m-C10-reply-scan-break", "C10", [("portalwire/lookup.go",
+   """				if n != nil && !it.seen[n.ID()] {
+					it.seen[n.ID()] = true
+""",
+   """				if n == nil {
+					break
+				}
+				if !it.seen[n.ID()] {
+					it.seen[n.ID()] = true
+""")]),
+ ("m-C01-shutdown-writes-off-queries", "C01", [("portalwire/lookup.go",
+   """	for it.queries > 0 {
+		<-it.replyCh
+		it.queries--
+	}
+""",
+   """	for it.queries > 0 {
+		select {
+		case <-it.replyCh:
+			it.queries--
+		default:
+			it.queries = 0
+		}
+	}
+""")]),
+ ("m-C16-refusal-by-cached-flag", "C16", [("portalwire/utp_transport.go",
+   """func (u *utpController) GetInboundPermit() (Permit, bool) {
+	if ok := u.inboundLimit.TryAcquire(1); !ok {
+		return &NoPermit{}, false
+	}
+	return &ReleasePermit{
+		action: func() {
+			u.inboundLimit.Release(1)
+		},
+	}, true
+}
+""",
+   """var inboundFull atomic.Bool
+
+func (u *utpController) GetInboundPermit() (Permit, bool) {
+	if inboundFull.Load() {
+		return &NoPermit{}, false
+	}
+	if ok := u.inboundLimit.TryAcquire(1); !ok {
+		inboundFull.Store(true)
+		return &NoPermit{}, false
+	}
+	return &ReleasePermit{
+		action: func() {
+			u.inboundLimit.Release(1)
+			inboundFull.Store(false)
+		},
+	}, true
+}
+""")]),
+ ("m-C18-credit-reset-on-endpoint-change", "C18", [("portalwire/table_reval.go",
+   "	n.isValidatedLive = false\n	tr.moveToList(&tr.fast, n, tab.cfg.Clock.Now(), &tab.rand)",
+   "	n.isValidatedLive = false\n	n.livenessChecks = 1\n	tr.moveToList(&tr.fast, n, tab.cfg.Clock.Now(), &tab.rand)")]),
+ ("m-C14-first-offset-lower-bound", "C14", [("portalwire/types_encoding.go", "	if o1 != 5 {", "	if o1 < 5 {")]),
+ ("m-C07-rollback-bucket-counter", "C07", [("portalwire/table.go",
+   """		tab.log.Debug("IP exceeds bucket limit", "ip", ip)
+		tab.ips.RemoveAddr(ip)
+""",
+   """		tab.log.Debug("IP exceeds bucket limit", "ip", ip)
+		tab.ips.RemoveAddr(ip)
+		b.ips.RemoveAddr(ip)
+""")]),
+ ("m-C07-no-rollback", "C07", [("portalwire/table.go",
+   """		tab.log.Debug("IP exceeds bucket limit", "ip", ip)
+		tab.ips.RemoveAddr(ip)
+""",
+   """		tab.log.Debug("IP exceeds bucket limit", "ip", ip)
+""")]),
+ ("m-C13-batch-verdict-overwritten", "C13", [("state/network.go",
+   """		err := h.validator.ValidateContent(contentKey, content)
+		if err != nil {
+			h.log.Error("content validate failed", "contentKey", hexutil.Encode(contentKey), "err", err)
+			return err
+		}
+""",
+   """		err := h.validator.ValidateContent(contentKey, content)
+		if err != nil {
+			h.log.Error("content validate failed", "contentKey", hexutil.Encode(contentKey), "err", err)
+		}
+""")]),
+ ("m-C06-pong-radius-big-endian", "C06", [("portalwire/portal_protocol.go",
+   """	radius, err := p.Radius().MarshalSSZ()
+	if err != nil {
+		return Pong{}, err
+	}
+	return p.createPong(pingext.BasicRadius, radius), nil""",
+   """	radius := p.Radius().Bytes32()
+	return p.createPong(pingext.BasicRadius, radius[:]), nil""")]),
+ ("m-C20-client-info-first-report-only", "C20", [("portalwire/portal_protocol.go",
+   """	// --- Compare and Update Radius ---
+	updated := p.updateRadiusCacheIfNeeded(id, nodeIdBytes, payload.DataRadius)
+
+	// --- Compare and Update Capabilities ---""",
+   """	// --- Compare and Update Radius ---
+	updated := false
+	if p.radiusCache.Get(nil, nodeIdBytes) == nil {
+		updated = p.updateRadiusCacheIfNeeded(id, nodeIdBytes, payload.DataRadius)
+	}
+
+	// --- Compare and Update Capabilities ---""")]),
+ ("m-C19-bitset-of-versions", "C19", [("portalwire/portal_protocol_v1.go",
+   """	valuesInA := make(map[uint8]bool)
+	for _, val := range a {
+		valuesInA[val] = true
+	}
+""",
+   """	var valuesInA uint64
+	for _, val := range a {
+		valuesInA |= 1 << val
+	}
+"""), ("portalwire/portal_protocol_v1.go", "		if valuesInA[val] {", "		if valuesInA&(1<<val) != 0 {")]),
  ("m-C11-low-port", "C11", [("portalwire/portal_protocol.go", "	if n.UDP() <= 1024 {", "	if n.UDP() < 1024 {")]),
  ("m-C11-no-distance-check", "C11", [("portalwire/portal_protocol.go",
    """		if !slices.Contains(distances, uint(nd)) {
